@@ -33,6 +33,7 @@ import (
 	"istio.io/istio/pkg/config"
 	"istio.io/istio/pkg/config/host"
 	"istio.io/istio/pkg/config/protocol"
+	"istio.io/istio/pkg/config/schema/gvk"
 	"istio.io/istio/pkg/config/validation"
 	"istio.io/istio/pkg/util/sets"
 	"verifharness/internal/wire"
@@ -70,11 +71,14 @@ func (f *failer) done() {
 
 type meshSvc struct {
 	host, ns, addr string
+	ext            string // Kubernetes ExternalName: the service is an alias of this host
 	ports          []int
 }
 
 type meshState struct {
 	svcs        []meshSvc
+	sidecarNs   string   // namespace of the (single) Sidecar resource, "" = none
+	egress      []string // its egress hosts, `ns/dnsName`
 	vss         []config.Config
 	rc          *route.RouteConfiguration
 	proxyDomain string
@@ -99,6 +103,7 @@ func (m *meshSvc) real() *model.Service {
 	for _, p := range m.ports {
 		s.Ports = append(s.Ports, &model.Port{Name: "http-" + strconv.Itoa(p), Port: p, Protocol: protocol.HTTP})
 	}
+	s.Attributes.K8sAttributes.ExternalName = m.ext
 	return s
 }
 
@@ -107,6 +112,9 @@ func (s *state) rdsStep(f []string) (string, bool) {
 	switch f[0] {
 	case "msvc":
 		ms := meshSvc{host: wire.Dec(f[1]), ns: wire.Dec(f[2]), addr: wire.Dec(f[4])}
+		if len(f) > 5 {
+			ms.ext = wire.Dec(f[5])
+		}
 		for _, p := range wire.DecList(f[3]) {
 			ms.ports = append(ms.ports, atoi(p))
 		}
@@ -114,6 +122,10 @@ func (s *state) rdsStep(f []string) (string, bool) {
 		m.drop()
 		// the SPEC resolves destinations against the full registry (all ports of every service)
 		s.services[host.Name(ms.host)] = ms.real()
+		return "ok", true
+	case "sidecar": // sidecar <ns> <egress hosts>
+		m.sidecarNs, m.egress = wire.Dec(f[1]), wire.DecList(f[2])
+		m.drop()
 		return "ok", true
 	case "mvs":
 		// robust under shrinking: an undefined VirtualService or a repeated name is ignored (both sides)
@@ -141,7 +153,14 @@ func (s *state) rdsStep(f []string) (string, bool) {
 			for i := range m.svcs {
 				svcs = append(svcs, m.svcs[i].real())
 			}
-			m.cg = core.NewConfigGenTest(m.fl, core.TestOptions{Services: svcs, Configs: m.vss})
+			cfgs := append([]config.Config(nil), m.vss...)
+			if m.sidecarNs != "" {
+				cfgs = append(cfgs, config.Config{
+					Meta: config.Meta{GroupVersionKind: gvk.Sidecar, Name: "sc", Namespace: m.sidecarNs, CreationTimestamp: time.Unix(800, 0)},
+					Spec: &networking.Sidecar{Egress: []*networking.IstioEgressListener{{Hosts: m.egress}}},
+				})
+			}
+			m.cg = core.NewConfigGenTest(m.fl, core.TestOptions{Services: svcs, Configs: cfgs})
 			m.gen = core.NewConfigGenerator(model.NewXdsCache())
 			m.req = &model.PushRequest{Push: m.cg.PushContext(), Start: time.Now()}
 		}
@@ -178,6 +197,53 @@ func (s *state) rdsStep(f []string) (string, bool) {
 
 // ---------------------------------------------------------------- end-to-end spec (Go rendering, oracle only)
 
+// --- Sidecar scope (spec): what the Sidecar resource lets a proxy of its namespace see
+
+func egressSelectsNs(e, own, ns string) (string, bool) {
+	ens, h, found := strings.Cut(e, "/")
+	if !found {
+		return e, true
+	}
+	if ens == "." {
+		ens = own
+	}
+	return h, ens == "*" || ens == ns
+}
+
+func (s *state) scoped() bool {
+	return s.mesh.sidecarNs != "" && s.node != nil && s.node.Metadata.Namespace == s.mesh.sidecarNs
+}
+
+func (s *state) svcVisible(ms meshSvc) bool {
+	if !s.scoped() {
+		return true
+	}
+	for _, e := range s.mesh.egress {
+		if h, ok := egressSelectsNs(e, s.mesh.sidecarNs, ms.ns); ok {
+			if h == ms.host || (strings.HasPrefix(h, "*") && subsetOf(ms.host, h)) {
+				return true
+			}
+		}
+	}
+	return false
+}
+
+func (s *state) vsVisible(c *config.Config) bool {
+	if !s.scoped() {
+		return true
+	}
+	for _, e := range s.mesh.egress {
+		if h, ok := egressSelectsNs(e, s.mesh.sidecarNs, c.Namespace); ok {
+			for _, vh := range c.Spec.(*networking.VirtualService).Hosts {
+				if h == vh || ((strings.HasPrefix(h, "*") || strings.HasPrefix(vh, "*")) && (subsetOf(vh, h) || subsetOf(h, vh))) {
+					return true
+				}
+			}
+		}
+	}
+	return false
+}
+
 // svcNames: the names by which a service can be addressed from the proxy's namespace - FQDN, absolute
 // FQDN, cluster VIP and, for <name>.<ns>.svc.<suffix> seen from <pns>.svc.<suffix>, the Kubernetes DNS
 // search path abbreviations <name>.<ns>, <name>.<ns>.svc and (same namespace only) <name>.
@@ -210,11 +276,18 @@ func hasPort(ms meshSvc, p int) bool {
 // the oldest one that has a rule for this proxy.  indexVariant (classification only, F-C12-6): for a wildcard
 // host only the oldest listing VirtualService is considered, whether or not it has a rule for this proxy.
 func (s *state) vsChoice(hostname string) *config.Config {
-	var listing []*config.Config
+	var vss []*config.Config // the VirtualServices this proxy sees
 	for i := range s.mesh.vss {
-		for _, h := range s.mesh.vss[i].Spec.(*networking.VirtualService).Hosts {
+		if s.vsVisible(&s.mesh.vss[i]) {
+			vss = append(vss, &s.mesh.vss[i])
+		}
+	}
+	hostsOf := func(c *config.Config) []string { return c.Spec.(*networking.VirtualService).Hosts }
+	var listing []*config.Config
+	for _, c := range vss {
+		for _, h := range hostsOf(c) {
 			if !strings.HasPrefix(h, "*") && strings.ToLower(h) == hostname {
-				listing = append(listing, &s.mesh.vss[i])
+				listing = append(listing, c)
 				break
 			}
 		}
@@ -223,8 +296,8 @@ func (s *state) vsChoice(hostname string) *config.Config {
 	if len(listing) == 0 {
 		wildcard = true
 		best := ""
-		for i := range s.mesh.vss {
-			for _, h := range s.mesh.vss[i].Spec.(*networking.VirtualService).Hosts {
+		for _, c := range vss {
+			for _, h := range hostsOf(c) {
 				if strings.HasPrefix(h, "*") && strings.HasSuffix(hostname, strings.ToLower(h[1:])) && len(h) > len(best) {
 					best = h
 				}
@@ -233,10 +306,10 @@ func (s *state) vsChoice(hostname string) *config.Config {
 		if best == "" {
 			return nil
 		}
-		for i := range s.mesh.vss {
-			for _, h := range s.mesh.vss[i].Spec.(*networking.VirtualService).Hosts {
+		for _, c := range vss {
+			for _, h := range hostsOf(c) {
 				if h == best {
-					listing = append(listing, &s.mesh.vss[i])
+					listing = append(listing, c)
 					break
 				}
 			}
@@ -285,7 +358,7 @@ func (s *state) meshSpec(authority string, q request) (string, bool) {
 	a := asciiLower(stripPort(authority)) // the outbound listener already fixes the port
 	var claim []meshSvc
 	for _, ms := range s.mesh.svcs {
-		if !hasPort(ms, s.port) {
+		if !hasPort(ms, s.port) || !s.svcVisible(ms) {
 			continue
 		}
 		if asciiLower(ms.host) == a || asciiLower(ms.host)+"." == a {
@@ -308,12 +381,20 @@ func (s *state) meshSpec(authority string, q request) (string, bool) {
 }
 
 // classifyMesh names the input class of an end-to-end disagreement.  The known class F-C12-4 is returned
-// only when it EXPLAINS the disagreement: the spec recomputed against the registry restricted to the
-// listener port (what the sidecar path hands the route compiler) equals what the real configuration did.
+// only when it EXPLAINS the disagreement: the spec recomputed against the registry the sidecar path hands the
+// route compiler (the egress listener's services: in the proxy's Sidecar scope and exposing the listener port)
+// equals what the real configuration did.
 func (s *state) classifyMesh(q request, want, got string) string {
 	full := s.services
 	restricted := map[host.Name]*model.Service{}
+	visible := map[string]bool{}
+	for _, ms := range s.mesh.svcs {
+		visible[ms.host] = s.svcVisible(ms)
+	}
 	for h, svc := range full {
+		if v, known := visible[string(h)]; known && !v {
+			continue // outside the proxy's Sidecar scope: not in the egress listener's registry either
+		}
 		if p, ok := svc.Ports.GetByPort(s.port); ok {
 			c := *svc
 			c.Ports = model.PortList{p}
@@ -357,7 +438,9 @@ func meshPool(nss []string) []meshSvc {
 	// names that collide: the short form `foo.com` of the cluster-local service foo.com.svc.cluster.local (namespace
 	// "com") is the FQDN of the ServiceEntry foo.com; `reviews.<ns>` may itself be a registered hostname
 	out = append(out, meshSvc{host: "foo.com.svc.cluster.local", ns: "com"}, meshSvc{host: "foo.com", ns: nss[0]},
-		meshSvc{host: "reviews." + nss[0], ns: nss[0]})
+		meshSvc{host: "reviews." + nss[0], ns: nss[0]},
+		// an ExternalName alias: destinations to it name the concrete host
+		meshSvc{host: "alias." + nss[0] + ".svc.cluster.local", ns: nss[0], ext: "real.example.com"})
 	return out
 }
 
@@ -387,7 +470,7 @@ func genRds(seed uint64, n int, out string) {
 		meshVSHosts := meshVSHostPool(nss)
 		picked := wire.Subset(r, pool, 2, 5)
 		if r.Chance(1, 4) { // force the colliding pair
-			picked = append(picked, pool[len(pool)-3], pool[len(pool)-2])
+			picked = append(picked, pool[len(pool)-4], pool[len(pool)-3])
 		}
 		if len(picked) < 2 {
 			picked = append([]meshSvc(nil), pool[0], pool[len(meshSvcNames)])
@@ -429,7 +512,7 @@ func genRds(seed uint64, n int, out string) {
 			}
 			onPort[ms.host] = hasPort(ms, port)
 			picked[k] = ms
-			f := []string{"msvc", wire.Enc(ms.host), wire.Enc(ms.ns), wire.EncList(intsToStrs(ms.ports)), wire.Enc(ms.addr)}
+			f := []string{"msvc", wire.Enc(ms.host), wire.Enc(ms.ns), wire.EncList(intsToStrs(ms.ports)), wire.Enc(ms.addr), wire.Enc(ms.ext)}
 			s.rdsStep(f)
 			o.Line(f...)
 		}
@@ -472,6 +555,9 @@ func genRds(seed uint64, n int, out string) {
 						if d.Destination.Port == nil && !onPort[d.Destination.Host] && d.Destination.Host != "unknown.example.org" {
 							d.Destination.Port = &networking.PortSelector{Number: 7070}
 						}
+						if strings.HasPrefix(d.Destination.Host, "alias.") && !onPort[d.Destination.Host] {
+							d.Destination.Host = "unknown.example.org" // alias half of F-C12-4: own corpus file
+						}
 					}
 					s.vs.Http = append(s.vs.Http, h)
 				}
@@ -493,6 +579,31 @@ func genRds(seed uint64, n int, out string) {
 		for _, v := range all {
 			merged.Http = append(merged.Http, v.Http...)
 		}
+		// a Sidecar resource in one namespace: its egress hosts decide which services and VirtualServices the
+		// proxies of that namespace see (model.SelectVirtualServices / selectServices run non-trivially)
+		scNs := ""
+		if r.Chance(1, 3) {
+			scNs = wire.Pick(r, nss)
+			var eh []string
+			for _, ns := range append([]string{"*", "."}, nss...) {
+				if r.Chance(1, 3) {
+					eh = append(eh, ns+"/*")
+				}
+			}
+			for _, ms := range wire.Subset(r, picked, 1, 2) {
+				eh = append(eh, wire.Pick(r, []string{ms.ns, "*"})+"/"+ms.host)
+			}
+			if r.Chance(1, 3) {
+				eh = append(eh, wire.Pick(r, append([]string{"*"}, nss...))+"/"+wire.Pick(r, meshVSHosts))
+			}
+			if len(eh) == 0 {
+				eh = []string{"./*"}
+			}
+			f := []string{"sidecar", wire.Enc(scNs), wire.EncList(eh)}
+			s.rdsStep(f)
+			o.Line(f...)
+		}
+		_ = scNs
 		// several sidecars are served one after the other from the same generator and cache; neighbours often
 		// share the namespace and differ only in their workload labels
 		np := 1 + r.Intn(3)
